@@ -42,7 +42,11 @@ RULE_ADDED = (
               'pubkey, type ...). '
               ' '
               'Round 12: tweaks of zero bytes / 0xff; elements that declare a tweak but are sig'
-              'ned with the untweaked key. ')
+              'ned with the untweaked key. '
+              ' '
+              'Round 13: elements declaring a void tweak (empty string, null, false, 0) and sig'
+              'ned with the untweaked certifier key - never valid, whatever the loader makes of'
+              ' them. ')
 RULE = RULE + " " + RULE_ADDED.strip()
 ASSUMPTIONS = [
     "oracle: pv/oracle/certv1.py (own secp256k1 arithmetic, ECDSA by cryptography/OpenSSL); "
@@ -410,6 +414,32 @@ def run_case(acc, cseed, tmpdir):
                 else:
                     on_path = "on" if on_path == "-" else on_path
         acc.distinct.add("%s|%s|%d|%s" % (kind, on_path, depth, len(doc["targets"])))
+    # ---- an element that declares a tweak which is no tweak ("" / null / false / 0) and is
+    # signed with the certifier's key as it is.  The format knows a tweak (a hex string) or
+    # no such member; whatever the code makes of this one - refusing the file is what it
+    # does - no target below that element is reported valid: its signature verifies under
+    # no key derived with a declared tweak.
+    cands = [e["name"] for e in doc["elements"] if "tweak" in e]
+    if cands and rng.random() < 0.5:
+        d2 = copy.deepcopy(doc)
+        name = rng.choice(cands)
+        el = [e for e in d2["elements"] if e["name"] == name][0]
+        el["tweak"] = rng.choice(["", None, False, 0])
+        p_ = info["parents"][name]
+        sk = info["root"] if p_ == "root" else info["keys"][p_]
+        el["signature"] = g.sign(sk, bytes.fromhex(el["message"]), rng).hex()
+        acc.evaluations += 1
+        acc.count("certificates_with_a_void_tweak")
+        try:
+            got = run_code(d2, root_pub, tmpdir)
+        except Exception:
+            got = None
+            acc.count("certificates_with_a_void_tweak_refused_whole")
+        for t in (d2["targets"] if got is not None else []):
+            if name in path_of(d2, t) and got.get(t) is not None and got[t][0]:
+                acc.violation("accepted-invalid-chain:void-tweak-signed-by-the-untweaked-key",
+                              {"target": t, "element": name, "declared_tweak": repr(el["tweak"]),
+                               "got": got[t]}, case)
 
 
 def replay(case, acc):
